@@ -332,6 +332,9 @@ func (p *Pset) validatePartialSignature(
 	}
 
 	signatureLen := len(partialSignature.Signature)
+	if signatureLen == 0 {
+		return false, errors.New("empty partial signature")
+	}
 	sigHashType := partialSignature.Signature[signatureLen-1]
 	signatureDer := partialSignature.Signature[:signatureLen-1]
 
@@ -378,13 +381,17 @@ func (p *Pset) getHashAndScriptForSignature(inputIndex int, sigHashType uint32) 
 		prevoutHash := p.UnsignedTx.Inputs[inputIndex].Hash
 		utxoHash := input.NonWitnessUtxo.TxHash()
 
-		if bytes.Compare(prevoutHash, utxoHash.CloneBytes()) == 1 {
+		if !bytes.Equal(prevoutHash, utxoHash.CloneBytes()) {
 			return nil, nil,
 				errors.New("non-witness utxo hash for input doesnt match the " +
 					"hash specified in the prevout")
 		}
 
 		prevoutIndex := p.UnsignedTx.Inputs[inputIndex].Index
+		if uint64(prevoutIndex) >= uint64(len(input.NonWitnessUtxo.Outputs)) {
+			return nil, nil,
+				errors.New("non-witness utxo has no output at the prevout index")
+		}
 		prevout := input.NonWitnessUtxo.Outputs[prevoutIndex]
 		if input.RedeemScript != nil {
 			script = input.RedeemScript
@@ -419,7 +426,7 @@ func (p *Pset) getHashAndScriptForSignature(inputIndex int, sigHashType uint32) 
 			hash = p.UnsignedTx.HashForWitnessV0(
 				inputIndex,
 				pay.Script,
-				input.WitnessUtxo.Value,
+				prevout.Value,
 				txscript.SigHashType(sigHashType),
 			)
 		default:
